@@ -21,4 +21,8 @@ func Init() {
 	if err := failpoint.Enable("tikvclient/noBuiltInTxnSafePointUpdater", "return"); err != nil {
 		panic(err)
 	}
+	// store liveness probes would dial gRPC health checks: the mock stores are always reachable
+	if err := failpoint.Enable("tikvclient/injectLiveness", `return("reachable")`); err != nil {
+		panic(err)
+	}
 }
